@@ -182,6 +182,7 @@ type c18world struct {
 	cache    map[string]*crlpkg.Bundle
 	getFault bool
 	setFault bool
+	wrapMiss bool
 	events   []string
 }
 
@@ -208,6 +209,9 @@ func (w *c18world) Get(ctx context.Context, url string) (*crlpkg.Bundle, error) 
 	}
 	if b, ok := w.cache[url]; ok {
 		return b, nil
+	}
+	if w.wrapMiss { // a cache implementation may add context to the sentinel
+		return nil, fmt.Errorf("no entry for %q: %w", url, crlpkg.ErrCacheMiss)
 	}
 	return nil, crlpkg.ErrCacheMiss
 }
@@ -271,8 +275,11 @@ func (o c18op) String() string {
 	return fmt.Sprintf("faults get=%v set=%v", o.Get, o.Set)
 }
 
+var nC18 int
+
 func runC18(w *CaseWriter, withCache, discard bool, initial map[string]fcrlA, ops []c18op, labels []string) {
-	world := &c18world{server: map[string]fcrlA{}, cache: map[string]*crlpkg.Bundle{}}
+	nC18++
+	world := &c18world{server: map[string]fcrlA{}, cache: map[string]*crlpkg.Bundle{}, wrapMiss: nC18%2 == 0}
 	var known []fcrlA
 	var srvTerms []string
 	for u, c := range initial {
